@@ -129,6 +129,13 @@ func Gen(seed uint64, profile string) *Scenario {
 			}
 			sc.Archives[0].Entries = append(pre, sc.Archives[0].Entries...)
 		}
+		if sr := simkit.NewRNG(seed, "uw/sparse"); sr.Chance(1, 25) {
+			// a few hundred bytes that declare a file of many megabytes, all of it one hole
+			e := Entry{Name: simkit.Pick(sr, []string{"sp", "a/sp", "sp.tf"}), Type: "reg", Mode: 0o644, Sec: 1000000000, Sparse: simkit.Pick(sr, []int64{1 << 24, 1 << 26, 1 << 27})}
+			es := sc.Archives[0].Entries
+			k := sr.Intn(len(es) + 1)
+			sc.Archives[0].Entries = append(append(append([]Entry{}, es[:k]...), e), es[k:]...)
+		}
 		if rr := simkit.NewRNG(seed, "uw/root-link"); sc.Dst == "/w/dst" && rr.Chance(1, 12) {
 			// the destination does not exist yet, and the archive has an entry that is not a
 			// directory under a name that means the destination itself
